@@ -6,6 +6,8 @@ import OcVerif.Driver.Nio
 import OcVerif.Driver.TLCache
 import OcVerif.Driver.Timeouts
 import OcVerif.Driver.RtWait
+import OcVerif.Driver.RtLoop
+import OcVerif.Driver.RtWake
 import OcVerif.Driver.Co
 import OcVerif.Driver.Local
 import OcVerif.Driver.Beans
@@ -40,6 +42,8 @@ def dispatch (comp : String) : Option (String → String → Verdict) :=
   | "tlcache" => some Driver.TLCache.drive
   | "timeouts" => some Driver.Timeouts.drive
   | "rtwait" => some Driver.RtWait.drive
+  | "rtloop" => some Driver.RtLoop.drive
+  | "rtwake" => some Driver.RtWake.drive
   | "co" => some Driver.Co.drive
   | "local" => some Driver.Local.drive
   | "beans" => some Driver.Beans.drive
